@@ -6,3 +6,4 @@ history with cancellations at any event or hook point nothing is left behind, an
 import LLBuild.Props.C05
 import LLBuild.Props.EngineImplSound
 import LLBuild.Props.EngineImplTerm
+import LLBuild.Props.EngineImplAsync
